@@ -4,7 +4,7 @@ import NitroVerif.Model.JsTemplate
 Model of `crates/printer/src/graphql_printer/{ast,base,ext,utils}.rs`: `GraphQLPrinter::print_graphql`
 for type-system documents and executable documents, as a function to a list of printer tokens.
 
-A printer token is either a *significant* GraphQL token (punctuator, name/keyword, number, string — the
+A printer token is either a *significant* GraphQL token (punctuator, name/keyword, variable, number, string — the
 string by VALUE, its text is `printString value`), or *layout* (`lay`: the spaces, newlines and commas
 the printer writes between tokens — all of it is `Ignored` in GraphQL), or an indentation operation of
 the `SourceMapWriter`. `Tok.ops` turns tokens into writer operations; the text is then produced by the
@@ -68,10 +68,15 @@ def escTriple : Nat → List Char → List Char
 
 def printBlock (s : List Char) : List Char := ['"', '"', '"'] ++ escTriple 0 s ++ ['"', '"', '"']
 
+/-- the last character of `s` (`d` if `s` is empty) -/
+def lastOf : Option Char → List Char → Option Char
+  | d, [] => d
+  | _, c :: cs => lastOf (some c) cs
+
 /-- `can_print_as_block_string`: the block form lexes back — the text does not end with `"` or `\`
     and contains no control character other than TAB and LF -/
 def canBlock (s : List Char) : Bool :=
-  s.getLast? ≠ some '"' ∧ s.getLast? ≠ some '\\' ∧ s.all fun c => c = '\n' ∨ c = '\t' ∨ !isControl c
+  lastOf none s ≠ some '"' ∧ lastOf none s ≠ some '\\' ∧ s.all fun c => c = '\n' ∨ c = '\t' ∨ !isControl c
 
 def useBlock (s : List Char) : Bool := s.contains '\n' ∧ canBlock s
 
@@ -83,27 +88,32 @@ def printString (s : List Char) : List Char :=
 inductive Tok where
   | p (s : String)
   | name (s : String)
-  | num (s : String)
+  /-- a variable `$name`: written as the two chunks `"$"` and `name` (`Variable::print_graphql`) -/
+  | var (n : String)
+  | int (s : String)
+  | float (s : String)
   | str (v : String)
   | lay (s : String)
   | ind
   | ded
   deriving Repr, Inhabited, DecidableEq
 
-def Tok.op : Tok → WOp
-  | .p s | .name s | .num s | .lay s => .write s.toList
-  | .str v => .write (printString v.toList)
-  | .ind => .indent
-  | .ded => .dedent
+/-- the `SourceMapWriter` calls a token stands for -/
+def Tok.ops : Tok → List WOp
+  | .p s | .name s | .int s | .float s | .lay s => [.write s.toList]
+  | .var n => [.write ['$'], .write n.toList]
+  | .str v => [.write (printString v.toList)]
+  | .ind => [.indent]
+  | .ded => [.dedent]
 
 def Tok.isSig : Tok → Bool
-  | .p _ | .name _ | .num _ | .str _ => true
+  | .p _ | .name _ | .var _ | .int _ | .float _ | .str _ => true
   | _ => false
 
 /-- the significant tokens (what a GraphQL lexer sees, strings by value) -/
 def sig (ts : List Tok) : List Tok := ts.filter Tok.isSig
 
-def ops (ts : List Tok) : List WOp := ts.map Tok.op
+def ops (ts : List Tok) : List WOp := ts.flatMap Tok.ops
 /-- text written into a `JustWriter` -/
 def text (ts : List Tok) : List Char := justText (ops ts)
 
@@ -119,9 +129,9 @@ def printType : GType → List Tok
 
 mutual
 def printValue : Value → List Tok
-  | .var n _ => [.p "$", .name n]
-  | .int s _ => [.num s]
-  | .float s _ => [.num s]
+  | .var n _ => [.var n]
+  | .int s _ => [.int s]
+  | .float s _ => [.float s]
   | .str s _ => [.str s]
   | .bool b _ => [.name (if b then "true" else "false")]
   | .null _ => [.name "null"]
@@ -193,7 +203,7 @@ def printSelSet (ss : List Selection) : List Tok :=
   [.p "{", nl, .ind] ++ printSelLines ss ++ [.ded, .p "}"]
 
 def printVarDef (v : VarDef) : List Tok :=
-  [.p "$", .name v.name, .p ":", sp] ++ printType v.ty ++
+  [.var v.name, .p ":", sp] ++ printType v.ty ++
   (match v.default with
    | some dv => [sp, .p "=", sp] ++ printValue dv
    | none => []) ++ printDirs v.dirs
